@@ -112,7 +112,10 @@ STMTS = ['global a', 'nonlocal a', 'a = 1', 'a: int', 'a += 1', 'del a', 'return
          'def g[T](a: T): pass', 'break', 'continue', 'pass', 'a = yield', 'print(a)', 'lambda: a',
          'class D: a = 1', 'a = [a for a in a]', 'async with a: pass', 'raise', 'x = (yield)',
          'from __future__ import annotations', 'a = f"{a!r:{a}}"', 'assert a', '*a, b = c', 'a = *b, c',
-         'a = f"yield"', 'type X = int', 'match a:\n    case [b, *c]: pass', 'while a: break', 'for a in b: continue']
+         'a = f"yield"', 'type X = int', 'match a:\n    case [b, *c]: pass', 'while a: break', 'for a in b: continue',
+         'f(x := 1, y)', 'def h(): return (x async for x in y)', 'try: pass\nfinally:\n    for a in b: continue',
+         'a = f"{x:{a:1}{b:2}}"', 'a = f"{x:{y:{z}}}"', "a = f\"{'\\n'.join(x)}\"", 'async = 1', 'f(**a, *b)',
+         'a = [*b for b in c]', 'def k(a=(yield)): pass', 'a = (b for b in c)(d)', 'nonlocal_ = 1; del (a, b)']
 HEADERS = [None, 'def f(a):', 'async def f():', 'class C:', 'def f():\n    def g():', 'for q in r:']
 
 
@@ -231,6 +234,45 @@ def rule_global_type_params(case, sig, extra, match):
     return bool(_global_issue(sig)) and bool(_names_in(m, ('type_params',)))
 
 
+def _has(m, *types):
+    return bool(_names_in(m, types))
+
+
+def rule_continue_finally_loop(case, sig, extra, match):
+    """C12-F9: (<= 3.7) 'continue' inside a loop that is itself inside a finally block is allowed by CPython;
+    only a continue directly in the finally block is rejected."""
+    text, v, m = extra
+    return len(sig) > 1 and "'continue' not supported inside 'finally' clause" in sig[1] and v in ('3.6', '3.7')
+
+
+def rule_async_comprehension(case, sig, extra, match):
+    """C12-F11: an asynchronous generator expression is allowed in a normal function (CPython >= 3.7)."""
+    text, v, m = extra
+    return len(sig) > 1 and 'asynchronous comprehension outside of an asynchronous function' in sig[1] and \
+        v != '3.6' and _has(m, 'comp_for')
+
+
+def rule_walrus_argument(case, sig, extra, match):
+    """C12-F12: a walrus call argument `f(x := 1, y)` is taken for a keyword argument."""
+    text, v, m = extra
+    return len(sig) > 1 and 'positional argument follows keyword argument' in sig[1] and ':=' in text
+
+
+def rule_nested_format_spec(case, sig, extra, match):
+    """C12-F13: two replacement fields inside one format spec (f"{x:{a:1}{b:2}}") are not parsed (error node)."""
+    text, v, m = extra
+    import re as _re
+    return sig[0] == 'a-error-node-on-common-syntax' and bool(_re.search(r':[^{}"]*\{[^{}]*\}[^{}"]*\{', text))
+
+
+def rule_pep701(case, sig, extra, match):
+    """C12-F14: (>= 3.12, PEP 701) backslashes in f-string expressions and arbitrarily nested format specs are
+    valid, parso still applies the old restrictions."""
+    text, v, m = extra
+    return len(sig) > 1 and v in ('3.12', '3.13', '3.14') and \
+        ('f-string expression part cannot include a backslash' in sig[1] or 'f-string: expressions nested too deeply' in sig[1])
+
+
 def rule_await_36(case, sig, extra, match):
     """C12-F6: grammar 3.6 treats async/await as keywords; CPython 3.6 still accepts them as identifiers
     (documented upstream limitation), so e.g. a call `await ()` is judged as an await expression."""
@@ -244,7 +286,9 @@ def rule_debug_global(case, sig, extra, match):
         sig[1] == "SyntaxError: name '__debug__' is used prior to global declaration"
 
 
-RULES = {'c12_global_type_params': rule_global_type_params, 'c12_await_36': rule_await_36, 'c12_debug_global': rule_debug_global, 'c12_formfeed_indent': rule_formfeed_indent, 'c12_global_lambda': rule_global_lambda,
+RULES = {'c12_continue_finally_loop': rule_continue_finally_loop, 'c12_async_comprehension': rule_async_comprehension,
+         'c12_walrus_argument': rule_walrus_argument, 'c12_nested_format_spec': rule_nested_format_spec,
+         'c12_pep701': rule_pep701, 'c12_global_type_params': rule_global_type_params, 'c12_await_36': rule_await_36, 'c12_debug_global': rule_debug_global, 'c12_formfeed_indent': rule_formfeed_indent, 'c12_global_lambda': rule_global_lambda,
          'c12_global_import': rule_global_import, 'c12_global_annotation_module': rule_global_annotation_module,
          'c12_yield_lambda': rule_yield_lambda}
 
